@@ -298,3 +298,35 @@ def build(spec, on_node=None, do_shutdown_sync=False):
             results.append(row)
         return results
     return program
+
+
+def threshold_switch_program(values=(3, 7, 5, 2)):
+    """Two phases in one session with the threshold changed in between through the public setter (only without PRSS: with PRSS the keys
+    would have to be exchanged again, which needs a new start()).  The second phase uses fresh inputs only.  Returns (program, expected)."""
+    a, b, c, d = values
+
+    async def program(mpc, pid):
+        m = len(mpc.parties)
+        secint = mpc.SecInt(16)
+        secfxp = mpc.SecFxp(16, 8)
+        xs = mpc.input([secint(a if pid == 0 else 0), secint(b if pid == 0 else 0)], senders=0)
+        p1 = xs[0] * xs[1] + xs[0]
+        q1 = mpc.schur_prod(xs, xs)
+        r1 = [await mpc.output(p1)] + await mpc.output(q1)
+        fx = mpc.input(secfxp(1.5 if pid == m - 1 else 0.0, integral=False), senders=m - 1)
+        r1.append(await mpc.output(fx * fx))
+        if mpc.options.no_prss and m >= 3:
+            await mpc.barrier()
+            t0 = mpc.threshold
+            # prefer lowering to a threshold that still reshares (t-1 >= 1), else raising, else the public phase t = 0
+            mpc.threshold = t0 - 1 if t0 - 1 >= 1 else (t0 + 1 if 2 * (t0 + 1) < m else max(t0 - 1, 0))
+        ys = mpc.input([secint(c if pid == m - 1 else 0), secint(d if pid == m - 1 else 0)], senders=m - 1)
+        p2 = ys[0] * ys[1] - ys[1]
+        q2 = mpc.schur_prod(ys, ys)
+        z2 = ys[0] < ys[1]
+        r2 = [await mpc.output(p2)] + await mpc.output(q2) + [await mpc.output(z2)]
+        gy = mpc.input(secfxp(2.25 if pid == 0 else 0.0, integral=False), senders=0)
+        r2.append(await mpc.output(gy * gy))
+        return [r1, r2]
+    expected = [[a * b + a, a * a, b * b, 2.25], [c * d - d, c * c, d * d, int(c < d), 5.0625]]
+    return program, expected
